@@ -728,6 +728,35 @@ func init() {
 		}
 		return fmt.Sprintf("%s pick=%s owned=%d", r, v, owned)
 	})
+	// wb.slab <dmap>: per member and kind, per partition: allocated:inuse:garbage:tables:length of the fragment's store
+	register("wb.slab", func(a []string) string {
+		var out []string
+		for i, m := range cl.members {
+			if !m.alive {
+				continue
+			}
+			iv := m.db.VerifInternals()
+			side := func(kind partitions.Kind) string {
+				_, per := iv.DMap.VerifStats(a[0], kind)
+				var ids []int
+				for p := range per {
+					ids = append(ids, int(p))
+				}
+				sort.Ints(ids)
+				var ps []string
+				for _, p := range ids {
+					st := per[uint64(p)]
+					ps = append(ps, fmt.Sprintf("%d:%d:%d:%d:%d:%d", p, st.Allocated, st.Inuse, st.Garbage, st.NumTables, st.Length))
+				}
+				if len(ps) == 0 {
+					return "-"
+				}
+				return strings.Join(ps, ",")
+			}
+			out = append(out, fmt.Sprintf("m%d:P=%s;B=%s", i, side(partitions.PRIMARY), side(partitions.BACKUP)))
+		}
+		return strings.Join(out, " ")
+	})
 	// wb.stats <dmap>: per member the number of owned partitions and, per primary fragment, length and bytes in use
 	register("wb.stats", func(a []string) string {
 		var out []string
